@@ -222,7 +222,7 @@ fn raw_response(stream: i16, body: &[u8]) -> Vec<u8> {
 /// reader holds a partly received frame. Bodies from empty to larger than the reader's 8 KiB buffer. Every frame is
 /// well formed and answers an outstanding request, so the connection has to stay up and every answer has to arrive
 /// byte for byte.
-fn gen_conn_split(rng: &mut Rng) -> String {
+pub(crate) fn gen_conn_split(rng: &mut Rng) -> String {
     let n = rng.range(2, 7) as usize;
     let mut ops: Vec<String> = vec!["s".to_owned(); n];
     // request k is written on stream k; `alive` = written, unanswered, not abandoned
@@ -402,6 +402,32 @@ pub fn generate(rng: &mut Rng, tier: Tier, emit: &mut dyn FnMut(String)) {
             }
         }
         emit(format!("conn m{} {}", ms, ops.join(";")));
+    }
+    // BIG answers: bodies around and beyond the reader's 1 MiB preallocation cap (`MAX_BODY_PREALLOCATION`), whose
+    // tail from offset 2^20 on looks like a whole frame for ANOTHER request in flight; written at once or in two
+    // pieces (cut in the header, at the border, just before / after the first MiB); the victim sometimes cancelled
+    for i in 0..(if quick { 16 } else { 200 }) {
+        let n = rng.range(2, 5) as usize;
+        let mut ops: Vec<String> = vec!["s".to_owned(); n];
+        let j = rng.below(n as u64) as usize;
+        let k = (j + 1 + rng.below(n as u64 - 1) as usize) % n;
+        let lens = [(1usize << 20) - 1, 1 << 20, (1 << 20) + 1, (1 << 20) + 17, (1 << 20) + 37, (1 << 20) + 9000, (1 << 21) + 5, (3 << 20) + 5, 4 << 20];
+        let len = if i < lens.len() { lens[i] } else { *rng.pick(&lens) };
+        let cut = *rng.pick(&[0usize, 0, 5, 9, 1000, (1 << 20) + 8, (1 << 20) + 9, (1 << 20) + 20]);
+        match rng.below(6) {
+            0 => ops.push(format!("c{}", k)),
+            1 => ops.push(format!("C{}", k)),
+            _ => {}
+        }
+        ops.push(format!("B{}:{}:{}:{}", j, len, k, cut));
+        for _ in 0..n {
+            ops.push(format!("r{}", rng.below(2)));
+        }
+        if rng.chance(1, 3) {
+            ops.push("s".into());
+            ops.push("r0".into());
+        }
+        emit(format!("conn {} {}", rng.below(2), ops.join(";")));
     }
     for _ in 0..(if quick { 2_500 } else { 40_000 }) {
         emit(gen_conn_split(rng));
